@@ -1006,6 +1006,32 @@ func (f *Fam) checkTx(before, after *Snapshot, r string, bz []byte, msg sdk.Msg,
 			if t.feeEff().LT(f.requiredFee(before, t.kind)) {
 				fail("fee-required", "C03:fee-below-required-accepted", fmt.Sprintf("%s of a %s tx with fee %s < required %s passed the ante handler", t.mode, t.kind, t.feeEff(), f.requiredFee(before, t.kind)))
 			}
+			if t.mode == "simulate" { // a simulation runs the handler: what it reports as a success is authorised
+				var acl govTypes.ACL
+				govTypes.ModuleCdc.UnmarshalJSON([]byte(before.Params["gov/acl"]), &acl)
+				var dao sdk.Address
+				govTypes.ModuleCdc.UnmarshalJSON([]byte(before.Params["gov/daoOwner"]), &dao)
+				owner := func(k string) string {
+					if o := acl.GetOwner(k); o != nil {
+						return hx(o)
+					}
+					return "nobody"
+				}
+				switch t.kind {
+				case "changeparam":
+					if owner(t.f["key"]) != signer {
+						fail("param-authorised", "C17:unauthorised-change-simulated-ok", fmt.Sprintf("the simulation of a change of %s by %s succeeds; the list names %s as its owner", t.f["key"], signer, owner(t.f["key"])))
+					}
+				case "upgrade":
+					if owner("gov/upgrade") != signer {
+						fail("param-authorised", "C17:unauthorised-change-simulated-ok", fmt.Sprintf("the simulation of an upgrade by %s succeeds; the list names %s as owner of the plan", signer, owner("gov/upgrade")))
+					}
+				case "daotransfer", "daoburn":
+					if hx(dao) != signer {
+						fail("dao-authorised", "C17:unauthorised-dao-action-simulated-ok", fmt.Sprintf("the simulation of a DAO action by %s succeeds; the DAO owner is %q", signer, hx(dao)))
+					}
+				}
+			}
 			if t.mode == "check" {
 				if hx(Keys[t.signer].Addr) != signer {
 					fail("signer-key", "C03:wrong-key-accepted", fmt.Sprintf("CheckTx: %s tx declared signer %s but was signed by key %s and passed the ante handler", t.kind, signer, hx(Keys[t.signer].Addr)))
@@ -1102,6 +1128,20 @@ func (f *Fam) checkParams(before, after *Snapshot, w []string, obs string, fail 
 	isTx := w[0] == "tx" && w[1] == "deliver"
 	if isTx {
 		t = parseTx(w)
+	}
+	if len(changed) > 0 && !f.dead {
+		// what the keepers read on the running state is what its store holds - also right after governance wrote there
+		ap := f.app.Auth.GetParams(f.app.Ctx())
+		wantA := authTypes.Params{}
+		okA := true
+		for _, pr := range (&wantA).ParamSetPairs() {
+			if err := authTypes.ModuleCdc.UnmarshalJSON([]byte(after.Params["auth/"+string(pr.Key)]), pr.Value); err != nil {
+				okA = false
+			}
+		}
+		if okA && ap.String() != wantA.String() {
+			fail("keeper-view", "keeper-reads-stale-parameter", fmt.Sprintf("after %q the auth keeper reads %q on the running state, whose store holds %q", clip(strings.Join(w, " ")), ap.String(), wantA.String()))
+		}
 	}
 	for _, k := range changed {
 		if k == "pos/StakeMinimum" {
